@@ -258,20 +258,22 @@ def make_judge(ctx, variant, nn, edges, O, root_ok):
         else:
             if hist[-1] != ev:
                 ctx.oblige("history_depth_2")
-        if v is not None:
-            ctx.violation(key_of(v, bool(hist) and root_ok.get(ev, False)), _case(variant, nn, edges, hist, ev),
-                          {"failure": v[3], "ids": g.ids})
-        elif k == "sd":
-            e = D[ev[1]][ev[2]]
-            if e == INF:
+        # coverage obligations depend on the input (graph, query), not on what came back
+        if k == "sd":
+            if D[ev[1]][ev[2]] == INF:
                 ctx.oblige("unreachable_pair")
-            ctx.outcome(("sd", e))
         elif k == "asd":
             cc = cut_class(O, ev[1])
             if cc == "cut-equals-a-distance":
                 ctx.oblige("cut_equals_distance")
             if any(ev[1] < D[s][t] < INF for s in range(nn) for t in range(nn)):
                 ctx.oblige("cut_below_some_distance")
+        if v is not None:
+            ctx.violation(key_of(v, bool(hist) and root_ok.get(ev, False)), _case(variant, nn, edges, hist, ev),
+                          {"failure": v[3], "ids": g.ids})
+        elif k == "sd":
+            ctx.outcome(("sd", D[ev[1]][ev[2]]))
+        elif k == "asd":
             ctx.outcome(("asd", cc, len(res[1])))
         else:
             ctx.outcome(("prep", len(res[1][0])))
